@@ -301,6 +301,102 @@ fn sweep(rep: &mut Report, name: &str, alpha: &'static [char], max_len: usize) {
     rep.cov_add("distinct_outcomes", outcomes.len() as u64);
 }
 
+// ------------------------------------------------------------------------------------------------
+// the computed name is also the name every backend writes as the wire key / wire value
+// ------------------------------------------------------------------------------------------------
+
+/// Dictionary identifiers × 8 rules × 6 languages × 2 configurations: the wire name read back from the generated
+/// definition (struct member key, unit-enum value) equals the name the parser computed for the identifier — the one
+/// the sweeps compare with serde_derive's. (Comparing with serde directly would only repeat every known deviation
+/// of the computation once per backend.)
+fn emitted_names_family(rep: &mut Report) {
+    use crate::cli::par_map;
+    use crate::pipeline::{Lang, ALL_LANGS};
+    use crate::refmodel::{self, RunFail};
+    let read = |file: &str| -> Vec<String> {
+        std::fs::read_to_string(format!("{}/mc/data/{file}", report::VERIF)).map(|t| t.lines().filter(|l| !l.is_empty() && l.is_ascii() && is_ident(l)).map(String::from).collect()).unwrap_or_default()
+    };
+    let fields = read("idents_fields.txt");
+    let variants = read("idents_variants.txt");
+    let mut jobs: Vec<(String, bool, &'static str, Lang, bool)> = Vec::new();
+    for (list, variant) in [(&fields, false), (&variants, true)] {
+        for id in list.iter() {
+            for rule in &RULES[..8] {
+                if serde_name(rule, id, variant).is_none() {
+                    continue;
+                }
+                for &lang in &ALL_LANGS {
+                    for prefixed in [false, true] {
+                        jobs.push((id.clone(), variant, rule, lang, prefixed));
+                    }
+                }
+            }
+        }
+    }
+    let results = par_map(&jobs, report::threads(), |(id, variant, rule, lang, prefixed)| {
+        let sp = spell(id)?;
+        serde_name(rule, id, *variant)?;
+        let src = if *variant {
+            format!("#[typeshare]\n#[serde(rename_all = \"{rule}\")]\npub enum Subject {{ {sp}, Zz9 }}\n")
+        } else {
+            format!("#[typeshare]\n#[serde(rename_all = \"{rule}\")]\npub struct Subject {{ pub {sp}: u32 }}\n")
+        };
+        let cfg = if *prefixed { Cfg::prefixed() } else { Cfg::plain() };
+        // the name the parser computed for this very input (compared with serde_derive's by the sweeps above)
+        let exp = match pipeline::parse_only(&[SrcFile::single(src.clone())], &cfg) {
+            Ok(m) => m.values().next().and_then(|pd| {
+                if *variant {
+                    pd.enums.first().and_then(|e| e.shared().variants.first()).map(|v| v.shared().id.renamed.clone())
+                } else {
+                    pd.structs.first().and_then(|s| s.fields.first()).map(|f| f.id.renamed.clone())
+                }
+            }),
+            Err(_) => None,
+        }?;
+        // Scala has no key binding (C01 counts these out of scope as well): it cannot spell a key containing '-'
+        if *lang == Lang::Scala && exp.contains('-') {
+            return None;
+        }
+        let name = refmodel::prefixed(*lang, &cfg, "Subject");
+        let obs: Result<Option<String>, String> = match refmodel::run_source(&src, *lang, &cfg) {
+            Ok(ok) => Ok(if *variant {
+                ok.out.enums().find(|e| e.name == name).and_then(|e| e.variants.first().map(|v| v.wire.clone()))
+            } else {
+                ok.out.structs().find(|s| s.name == name).and_then(|s| s.fields.first().map(|f| f.wire.clone()))
+            }),
+            Err((RunFail::Render(e), _)) => Err(format!("render:{e}")),
+            Err((f, _)) => Err(f.class()),
+        };
+        Some((exp, obs, src))
+    });
+    let mut judged = 0u64;
+    let mut nontrivial = BTreeSet::new();
+    for ((id, variant, rule, lang, prefixed), r) in jobs.iter().zip(results) {
+        let Some((exp, obs, src)) = r else { continue };
+        let pos = if *variant { "variant" } else { "field" };
+        judged += 1;
+        if exp != *id {
+            nontrivial.insert(report::fnv64(&format!("{id}|{rule}|{pos}|{}", lang.name())));
+        }
+        let cfgname = if *prefixed { "all-knobs" } else { "plain" };
+        match obs {
+            Ok(Some(o)) if o == exp => {}
+            Ok(o) => rep.vios.add(Violation {
+                sig: format!("C16|{rule}|{pos}|emitted-by-{}|cfg={cfgname}|{}|{}", lang.name(), shape(id), o.as_deref().map(|o| rel(&exp, o)).unwrap_or("member-not-found")),
+                detail: json!({"ident": id, "rule": rule, "position": pos, "lang": lang.name(), "configuration": cfgname, "computed_by_the_parser": exp, "emitted_wire_name": o, "source": src}),
+            }),
+            Err(e) if e.starts_with("render:") => rep.machinery(format!("emitted names: invalid Rust rendered for {id}: {e}")),
+            Err(class) => rep.vios.add(Violation {
+                sig: format!("C16|{rule}|{pos}|emitted-by-{}|cfg={cfgname}|{}|no-output:{}", lang.name(), shape(id), class.split(':').take(2).collect::<Vec<_>>().join(":")),
+                detail: json!({"ident": id, "rule": rule, "position": pos, "lang": lang.name(), "configuration": cfgname, "computed_by_the_parser": exp, "failure": class, "source": src}),
+            }),
+        }
+    }
+    rep.cov("emitted_names", json!({"field_identifiers": fields.len(), "variant_identifiers": variants.len(), "rules": 8, "languages": 6, "configurations": ["plain", "all naming knobs on (prefix, package, Go uppercase_acronyms [ID, URL], …)"], "generated_and_read_back": judged}));
+    rep.cov_add("evaluations", judged);
+    rep.cov_add("distinct_nontrivial", nontrivial.len() as u64);
+}
+
 pub fn run(args: &[String]) -> i32 {
     let tier = report::tier_from_env(args);
     let mut rep = Report::new("C16", &tier);
@@ -344,6 +440,7 @@ pub fn run(args: &[String]) -> i32 {
     rep.cov("dictionary", json!({"identifiers": dict_n, "comparisons": st.0, "oracle_undefined": st.1}));
     rep.cov_add("evaluations", st.0);
     rep.cov_add("distinct_nontrivial", st.2.len() as u64);
+    emitted_names_family(&mut rep);
     if thorough {
         bind_oracle_to_serde_derive(&mut rep);
     }
